@@ -641,6 +641,7 @@ func generate(r *mon.Run, cfg string, emit func(*Case)) {
 	genCustom(r, cfg, add)
 	genStackFill(cfg, add)
 	genFaults(add)
+	genStaticChains(r, add)
 
 	// (d) precompiles
 	genPrecompiles(r, cfg, add)
@@ -1089,6 +1090,87 @@ func genStackFill(cfg string, add func(Case)) {
 	}
 	b.pushU(0).pushU(0).pushU(0).pushU(0).pushU(0).op(opADDRESS, opGAS, opCALL)
 	add(Case{Fam: "stackfill", Tag: "full+CALL", Code: b.bytes(), Gas: 2000000})
+}
+
+var (
+	auxCAddr = common.HexToAddress("0x00000000000000000000000000000000c0de00a3")
+	auxDAddr = common.HexToAddress("0x00000000000000000000000000000000c0de00a4")
+)
+
+// writerCode: nine operands (all 0 or all 1), the opcode, STOP.
+func writerCode(op byte, pre int) []byte {
+	a := &asm{}
+	for i := 0; i < 9; i++ {
+		a.pushU(uint64(pre))
+	}
+	return a.op(op, opSTOP).bytes()
+}
+
+// hop calls `next` with the given non-static call kind and fails (REVERT) iff the callee failed.
+func hop(kind byte, next common.Address) []byte {
+	a := (&asm{}).pushU(0).pushU(0).pushU(0).pushU(0)
+	if kind == opCALL || kind == opCALLCODE {
+		a.pushU(0)
+	}
+	a.pushAddr(next).op(opGAS).op(kind)
+	ok := a.pc() + 3 + 1 + 5
+	a.push2(ok).op(opJUMPI).pushU(0).pushU(0).op(opREVERT).op(opJUMPDEST, opSTOP)
+	return a.bytes()
+}
+
+// STATICCALL -> 1..3 ordinary frames -> an opcode. For every opcode byte and two
+// operand preludes; whether the opcode must be rejected is decided at run time
+// from the active jump table (harness.probeWriters).
+func genStaticChains(r *mon.Run, add func(Case)) {
+	kinds := []byte{opCALL, opDELEGATECALL, opCALLCODE}
+	var shapes [][]byte
+	for _, a := range kinds {
+		shapes = append(shapes, []byte{a})
+		for _, b := range kinds {
+			shapes = append(shapes, []byte{a, b})
+			for _, c := range kinds {
+				shapes = append(shapes, []byte{a, b, c})
+			}
+		}
+	}
+	addrs := []common.Address{auxAAddr, auxBAddr, auxCAddr, auxDAddr}
+	emit := func(op byte, pre int, shape []byte) {
+		var aux []Acct
+		tag := "STATICCALL"
+		for i, k := range shape {
+			aux = append(aux, Acct{Addr: addrs[i].GetHexString(), Code: hop(k, addrs[i+1])})
+			tag += ">" + opName(k)
+		}
+		aux = append(aux, Acct{Addr: addrs[len(shape)].GetHexString(), Code: writerCode(op, pre)})
+		add(Case{Fam: "staticchain", Tag: tag + ">" + opName(op), Code: forwarder(opSTATICCALL, new(big.Int).SetBytes(auxAAddr.Bytes()), 0), Aux: aux,
+			Gas: 2000000, Miner: 1, Expect: fmt.Sprintf("chainstatic:%d:%d", pre, op)})
+	}
+	// every chain shape for the opcodes that modify state in some configuration
+	likely := []byte{opSSTORE, 0xa0, 0xa1, 0xa2, 0xa3, 0xa4, opCREATE, opCREATE2, opSELFDESTRUCT, opTSTORE, opSTAKE, opUNSTAKE, opUNSTAKEALL, opAUTHCALL}
+	for _, op := range likely {
+		for _, sh := range shapes {
+			emit(op, 0, sh)
+		}
+	}
+	for _, sh := range shapes {
+		emit(opCALL, 1, sh) // CALL transferring value
+	}
+	// every opcode byte: one chain of each length, kinds rotating with the opcode
+	all := r.Thorough()
+	for op := 0; op < 256; op++ {
+		for pre := 0; pre < 2; pre++ {
+			if all {
+				for _, sh := range shapes {
+					emit(byte(op), pre, sh)
+				}
+				continue
+			}
+			k := func(i int) byte { return kinds[(op+pre+i)%3] }
+			emit(byte(op), pre, []byte{k(0)})
+			emit(byte(op), pre, []byte{k(1), k(2)})
+			emit(byte(op), pre, []byte{k(2), k(0), k(1)})
+		}
+	}
 }
 
 // faults that must surface as an ordinary failed call
